@@ -8,7 +8,9 @@ open Paloma.Oracle
 def fixtureInit : St := activate St.init 1
 
 structure State where
-  s : St := fixtureInit
+  s : Sky := { o := fixtureInit }
+  /-- claim registry: attestation key hash ↦ identity of the claim (all fields) that holds it -/
+  reg : List (Nat × Nat) := []
 
 def init : State := {}
 
@@ -17,51 +19,82 @@ def sortAtts (l : List Att) : List Att :=
     let (lo, hi) := acc.partition (fun y => y.nonce < x.nonce || (y.nonce == x.nonce && y.hash < x.hash))
     lo ++ [x] ++ hi) []
 
+def sortBatches (l : List Batch) : List Batch :=
+  l.foldl (fun acc x =>
+    let (lo, hi) := acc.partition (fun y => y.id < x.id)
+    lo ++ [x] ++ hi) []
+
 def showState (d : State) : String :=
-  let s := d.s
+  let s := d.s.o
   let nonces := ",".intercalate ((List.range 5).map fun i => toString (lastNonceOf s (i + 1)))
   let as := sortAtts s.atts
   let aS := if as.isEmpty then "-" else ";".intercalate (as.map fun a =>
     s!"{a.nonce}:{a.hash}:" ++ ".".intercalate (a.votes.map toString) ++ s!":{if a.observed then 1 else 0}")
-  s!"last={s.lastObserved} eth={s.lastEth} nonces={nonces} atts={aS} minted={s.minted} dep={s.compassId}"
+  let bs := sortBatches d.s.b.batches
+  let bS := if bs.isEmpty then "-" else ",".intercalate (bs.map fun b => s!"{b.id}:{b.amount}:{b.timeout}")
+  s!"last={s.lastObserved} eth={s.lastEth} nonces={nonces} atts={aS} supply={d.s.supply} dep={s.compassId} open={bS} pool={d.s.b.pool}"
 
-/-- `endblock <powers> <total> [<nonce>:<hash>,… | -]`: the last field lists the attestations whose
-    observation event cannot be emitted in this block (collaborator fault). `<powers>` is the whole
+/-- `endblock <powers> <total> [<nonce>:<hash>,… | -] <block time>`: the third field lists the attestations
+    whose observation event cannot be emitted in this block (collaborator fault). `<powers>` is the whole
     `LastValidatorPower` table (bonded validators that never vote included) and `<total>` the stored
     `LastTotalPower`; the model derives the total from the table (`totalOf`), a line whose total differs is
-    outside the model (`bad-op`). -/
-def endblock (d : State) (kind ps total faults : String) : State × String :=
+    outside the model (`bad-op`). `<block time>` (unix seconds) decides which batches expire. -/
+def endblock (d : State) (kind ps total faults now : String) : State × String :=
   if kind != "endblock" && kind != "endblock50" then (d, "bad-op") else
-  match parsePairList? ps, parseNat? total, parsePairList? faults with
-  | some ps, some total, some fl =>
+  match parsePairList? ps, parseNat? total, parsePairList? faults, parseNat? now with
+  | some ps, some total, some fl, some now =>
     if total != totalOf ps then (d, "bad-op") else
-    let s1 := tally d.s (powerOf ps) (totalOf ps) (faultOf fl)
-    let s2 := if kind == "endblock50" then catchUp s1 else s1
-    let d' : State := { d with s := s2 }
+    let d' : State := { d with s := endBlock d.s (powerOf ps) (totalOf ps) (faultOf fl) now (kind == "endblock50") }
     (d', showState d')
-  | _, _, _ => (d, "bad-op")
+  | _, _, _, _ => (d, "bad-op")
+
+def resWord (r : Res) : String := if r == .ok then "ok " else "rejected "
+
+/-- the property's view of a submission: a key already held by a DIFFERENT claim must not be shared -/
+def clash : String := "distinct-claims-share-key"
 
 def step (d : State) (args : List String) : State × String :=
   match args with
   | ["reset"] => (init, "ok")
-  -- `vote <validator> <nonce> <hash> <remote height> <applicable> <amount> <compass id of the claim>`
-  | ["vote", v, n, h, eth, appl, amt, cp] =>
-    match parseNat? v, parseNat? n, parseNat? h, parseNat? eth, parseNat? appl, parseNat? amt, parseNat? cp with
-    | some v, some n, some h, some eth, some appl, some amt, some cp =>
-      let (s', r) := vote d.s v n h eth (appl != 0) amt cp
-      let d' := { d with s := s' }
-      ((d'), (if r == .ok then "ok " else "rejected ") ++ showState d')
+  -- `vote <validator> <nonce> <hash> <remote height> <applicable> <amount> <compass id of the claim> <claim identity>`
+  | ["vote", v, n, h, eth, appl, amt, cp, cid] =>
+    match parseNat? v, parseNat? n, parseNat? h, parseNat? eth, parseNat? appl, parseNat? amt, parseNat? cp, parseNat? cid with
+    | some v, some n, some h, some eth, some appl, some amt, some cp, some cid =>
+      match register d.reg h cid with
+      | none => (d, clash)
+      | some reg =>
+        let r := vote d.s.o v n h eth (appl != 0) amt cp
+        let d' : State := { s := { d.s with o := r.1 }, reg := reg }
+        (d', resWord r.2 ++ showState d')
+    | _, _, _, _, _, _, _, _ => (d, "bad-op")
+  -- executed-batch claim: `votex <validator> <nonce> <hash> <remote height> <batch nonce> <compass id> <claim identity>`
+  | ["votex", v, n, h, eth, id, cp, cid] =>
+    match parseNat? v, parseNat? n, parseNat? h, parseNat? eth, parseNat? id, parseNat? cp, parseNat? cid with
+    | some v, some n, some h, some eth, some id, some cp, some cid =>
+      match register d.reg h cid with
+      | none => (d, clash)
+      | some reg =>
+        let r := voteExec d.s v n h eth id cp
+        let d' : State := { s := r.1, reg := reg }
+        (d', resWord r.2 ++ showState d')
     | _, _, _, _, _, _, _ => (d, "bad-op")
-  | [kind, ps, total] => endblock d kind ps total "-"
-  | [kind, ps, total, faults] => endblock d kind ps total faults
+  | ["send", amt] =>
+    match parseNat? amt with
+    | some amt => let d' : State := { d with s := { d.s with b := send d.s.b amt } }; (d', showState d')
+    | none => (d, "bad-op")
+  | ["build", now] =>
+    match parseNat? now with
+    | some now => let d' : State := { d with s := { d.s with b := build d.s.b now } }; (d', showState d')
+    | none => (d, "bad-op")
+  | [kind, ps, total, faults, now] => endblock d kind ps total faults now
   | ["override", n] =>
     match parseNat? n with
-    | some n => let d' := { d with s := override d.s n }; (d', showState d')
+    | some n => let d' : State := { d with s := { d.s with o := override d.s.o n } }; (d', showState d')
     | none => (d, "bad-op")
   -- chain activation / bridge re-deployment with compass id "compass-<c>"
   | ["activate", c] =>
     match parseNat? c with
-    | some c => let d' := { d with s := activate d.s c }; (d', showState d')
+    | some c => let d' : State := { d with s := { d.s with o := activate d.s.o c } }; (d', showState d')
     | none => (d, "bad-op")
   | _ => (d, "bad-op")
 
